@@ -85,3 +85,21 @@ pub fn obs_brief(o: &Obs) -> String {
         Some((k, v)) => format!("Some(key={}, val={})", vlib::report::brief(k), vlib::report::brief(v)),
     }
 }
+
+/// Writes the file through a sink that accepts writes in short pieces and interrupts them (the
+/// alternating transfer policy). Returns the bytes the sink received.
+pub fn write_file_short(cfg: &FileCfg, entries: &[Entry]) -> Result<Vec<u8>, String> {
+    let r = catch_unwind(AssertUnwindSafe(|| -> Result<Vec<u8>, String> {
+        let ctl = vlib::sio::Ctl::new(vlib::sio::Policy::Alternate);
+        let mut w = writer_builder(cfg).build(vlib::sio::SFile::new(&ctl));
+        for (k, v) in entries {
+            w.insert(k, v).map_err(|e| format!("insert error: {e}"))?;
+        }
+        let sink = w.into_inner().map_err(|e| format!("into_inner error: {e}"))?;
+        Ok(sink.data.clone())
+    }));
+    match r {
+        Ok(x) => x,
+        Err(p) => Err(format!("panic: {}", panic_message(&p))),
+    }
+}
